@@ -83,8 +83,8 @@ CHECKS += [
       technique="function contract + proof-step assertion on the real C (z3); run-time evaluation of the steepest-ascent contract on the real kernels"),
  dict(id="C14", engine="cfront+csym", category="other", design_ref="DESIGN.md section 5 C14",
       text="proved for all images: tosparse_f32/u16/u32 return the count of selected pixels, every entry is a selected pixel with its value, positions strictly "
-           "increase row-major; sparse_is_sorted characterised; sparse_overlaps soundness, ordering and tail zeroing; coverlaps safety and key faithfulness. "
-           "Bounded: completeness of overlaps, matrix entries, mask_to_coo, compress_duplicates and the sparse_frame python glue vs dictionary oracles",
+           "increase row-major; sparse_is_sorted characterised; sparse_overlaps soundness, completeness, ordering and tail zeroing; coverlaps safety and key faithfulness. "
+           "Bounded: matrix entries of coverlaps, mask_to_coo, compress_duplicates and the sparse_frame python glue vs dictionary oracles",
       note=PROOF_NOTE + "; f2py passes contiguous arrays; " + BOUNDED_NOTE,
       technique="function contracts + loop invariants on the real C (z3) + run-time contracts on the python glue"),
  dict(id="C15", engine="numba run-time contracts", category="other", design_ref="DESIGN.md section 5 C15",
